@@ -134,6 +134,23 @@ def _siblings(qj, limit=3):
     return out
 
 
+_OTHER = {}
+
+
+def _other_reader(generation):
+    """a reader of an unrelated index that is at the given generation and has other words in its lexicon"""
+    g = max(0, min(int(generation or 0), 6))
+    if g not in _OTHER:
+        from whoosh.filedb.filestore import RamStorage
+        oix = RamStorage().create_index(corpus.build_schema({}))
+        for i in range(g):
+            w = oix.writer()
+            w.add_document(k="o%d" % i, t=["a", "abz", "zz", "bq", "ca%d" % i], w=["x", "zz"], n=100 + i)
+            w.commit(merge=False)
+        _OTHER[g] = oix.reader()
+    return _OTHER[g]
+
+
 def run(case, out):
     ix, model = corpus.build(case["hist"], "ram", None, ref_eval, to_whoosh)
     ndocs = len(model.docs)
@@ -245,6 +262,12 @@ def run(case, out):
                     lo, hi = ref_eval(x, model.live())
                     ambiguous = ambiguous or lo != hi
             if not ambiguous:
+                # the same query object has been simplified against another index (same generation, other words)
+                # before: what it yields for this reader must not depend on that
+                try:
+                    q.simplify(_other_reader(reader.generation()))
+                except Exception:
+                    pass
                 check("simplify", lambda x: x.simplify(reader))
             else:
                 # FuzzyTerm on a transposition: per-segment automaton (Levenshtein) vs multi-segment
